@@ -4,4 +4,5 @@
 # loop, file numbers). Left out on purpose: version.go / table.go / db_util.go (they iterate over Go
 # maps and sort the result, so the NUMBER of statements executed varies from run to run although the
 # behaviour does not - replay by choice index needs it fixed) and the pure encoders.
-echo "leveldb/db.go,leveldb/db_write.go,leveldb/db_state.go,leveldb/db_snapshot.go,leveldb/db_iter.go,leveldb/db_transaction.go,leveldb/db_compaction.go,leveldb/session.go,leveldb/session_util.go,leveldb/session_compaction.go"
+# leveldb/table/reader.go: block and filter handles released too early (buffer-pool reuse).
+echo "leveldb/db.go,leveldb/db_write.go,leveldb/db_state.go,leveldb/db_snapshot.go,leveldb/db_iter.go,leveldb/db_transaction.go,leveldb/db_compaction.go,leveldb/session.go,leveldb/session_util.go,leveldb/session_compaction.go,leveldb/table/reader.go"
